@@ -465,8 +465,10 @@ func checkCmd(args []string) {
 	if len(names) == 0 || len(funcs) == 0 {
 		// vacuity guard: a property description that generates nothing decides nothing
 		fmt.Fprintf(os.Stderr, "property %s: no function under contract / no obligation generated (vacuous check)\n", *prop)
+		os.RemoveAll(work)
 		os.Exit(2)
 	}
+	os.RemoveAll(work)
 	os.Exit(exit)
 }
 
